@@ -7,6 +7,7 @@ src/utils/str.py, src/utils/gen.py and plugins/Config/plugin.py it relies on).
   File.lean    registry.close line format, open_registry, escape/unescape/split/join of names
   Wrap.lean    NormalizedString.serialize: textwrap word runs, line filling, continuation lines
   Validators.lean  OnlySomeStrings, guarded String classes, ValidQuotes, Json/Float/Regexp layers (engines = parameters)
+  Lazy.lean    lazy re-reading of stale nodes after a second open_registry in the same process
   Tree.lean    the live value tree: _wasSet, _setValue(inherited), _makeChild, getSpecific,
                Config reset, which nodes are written, start-up registration from the cache
 
@@ -15,6 +16,7 @@ This file ties them together: what a save followed by a load gives.
 import LimnoriaModel.C15.Tree
 import LimnoriaModel.C15.Wrap
 import LimnoriaModel.C15.Validators
+import LimnoriaModel.C15.Lazy
 namespace C15
 open Py
 
@@ -89,5 +91,11 @@ def saveLoad (pr : Char → Bool) (c : ClassId) (dflt : Val) (K : Kind) (B : Str
   | .ok as => boot (c.cls pr dflt) K B (cacheOf as)
   | .invalid => .refused
   | .unm => .unm
+
+/-- does `str(node)` go through `node()`?  (everything but the String family, whose `__str__`
+reads `self.value`) -/
+def ClassId.strCalls : ClassId → Bool
+  | .str _ => false
+  | _ => true
 
 end C15
